@@ -84,6 +84,7 @@ type Func struct {
 	Callback bool
 	Info     bool
 	OptsRev  bool   // the dig options are passed in the reverse of the harness's usual order
+	SameVals bool   // all values of one type produced by one execution are the very same value (equal members)
 	FlatN    int    // element count for a positional flatten result
 	Decl     string `json:",omitempty"` // name of a declared pool function to use instead of reflect.MakeFunc
 }
@@ -661,11 +662,22 @@ func (rt *Runtime) Body(f *Func, inst string, ft reflect.Type, args []reflect.Va
 	out := make([]reflect.Value, 0, ft.NumOut())
 	var toks [][]Tok
 	slot := 0
+	type made struct {
+		v   reflect.Value
+		tok Tok
+	}
+	same := map[string]made{}
 	mk := func(code string, elem int) reflect.Value {
+		if m, ok := same[code]; ok && f.SameVals {
+			toks[len(toks)-1] = append(toks[len(toks)-1], m.tok)
+			return m.v
+		}
 		rt.serial++
 		tok := Tok{Fn: inst, Exec: exec, Slot: slot, Elem: elem, Serial: rt.serial}
 		toks[len(toks)-1] = append(toks[len(toks)-1], tok)
-		return newValue(code, tok)
+		v := newValue(code, tok)
+		same[code] = made{v, tok}
+		return v
 	}
 	var build func(r Result, t reflect.Type, top bool) reflect.Value
 	build = func(r Result, t reflect.Type, top bool) reflect.Value {
